@@ -27,6 +27,10 @@ namespace MlModel.Queue
 
 abbrev Tid := Nat
 
+/-- A queue element: the value together with a ghost tag, the producer thread that enqueued it
+(the tag travels with the value; the real queue only holds the value). -/
+abbrev Elem := Tid × Nat
+
 inductive Item where
   | val (v : Nat)
   | fail
@@ -76,7 +80,7 @@ structure Thread where
   /-- producer: remaining source items -/
   src : List Item := []
   /-- value in hand (just dequeued / about to be enqueued) -/
-  v : Nat := 0
+  v : Elem := (0, 0)
   /-- exception in flight -/
   x : Raise := .empty
   /-- `_stop_enqueue` arguments -/
@@ -84,16 +88,16 @@ structure Thread where
   /-- producer: re-raise after `_stop_enqueue` -/
   reraise : Option ErrKind := none
   /-- `get_batch`'s `result` -/
-  result : List Nat := []
+  result : List Elem := []
   /-- ghost: everything delivered to this consumer, in order -/
-  received : List Nat := []
+  received : List Elem := []
   /-- how the thread ended: consumers — the exception that ended the loop; producers — `some (err e)`
   if `enqueue_from_iterator` raised, `none` if it returned; stopper — `some (err assertion)` or none -/
   outcome : Option Raise := none
   deriving Repr, Inhabited
 
 structure Shared where
-  q : List Nat := []
+  q : List Elem := []
   /-- 0 = unbounded (`SimpleQueue`) -/
   cap : Nat := 0
   deqOwner : Option Tid := none
@@ -118,9 +122,11 @@ structure Shared where
   timeout : Bool := false
   ignoreError : Bool := false
   /-- ghost: every value successfully put, in put order -/
-  produced : List Nat := []
+  produced : List Elem := []
+  /-- ghost: every value taken out of the queue, in dequeue order -/
+  dequeued : List Elem := []
   /-- ghost: values dequeued and then dropped by a raising `get_batch` -/
-  lost : List Nat := []
+  lost : List Elem := []
   deriving Repr, Inhabited
 
 structure Cfg where
@@ -284,7 +290,8 @@ def stepThread (s : Shared) (t : Thread) (tid : Tid) (alt : Bool) : StepResult :
     if alt then none else
     if s.stOwner != some tid then none else
     match s.q with
-    | v :: q' => some ("get_nowait q1", { s with q := q' }, { t with pc := .nEmp c, v := v })
+    | v :: q' =>
+      some ("get_nowait q1", { s with q := q', dequeued := s.dequeued ++ [v] }, { t with pc := .nEmp c, v := v })
     | [] =>
       if s.exhausted then some ("get_nowait q1", s, { t with pc := .nRelErr c, x := s.final })
       else if s.enqueueDone then
@@ -356,7 +363,7 @@ def stepThread (s : Shared) (t : Thread) (tid : Tid) (alt : Bool) : StepResult :
   | .eNext =>
     if alt then none else
     match t.src with
-    | .val v :: rest => some ("next", s, { t with pc := .pAcq, v := v, src := rest })
+    | .val v :: rest => some ("next", s, { t with pc := .pAcq, v := (tid, v), src := rest })
     | .fail :: rest =>
       if s.ignoreError then
         let (s', t') := enqLoop s { t with src := rest }
